@@ -253,7 +253,7 @@ def processing_spec(draw, n_max, methods=ALL_METHODS, operators=OPERATORS, polic
     nfft = 2 ** 15
     while nfft <= n_max:
         nfft *= 2
-    if fft_n is not None:
+    if isinstance(fft_n, int):
         nfft = max(nfft, fft_n)
     op, bw = draw(operator_and_bandwidth(operators))
     spec = dict(method=method, op=op, bw=bw, width=draw(st.one_of(floats(0.001, 1), st.sampled_from([0.0, 0.1, 0.2, 1.0]))),
@@ -270,6 +270,7 @@ def processing_spec(draw, n_max, methods=ALL_METHODS, operators=OPERATORS, polic
     if method == "rotdpp":
         spec["percentile"] = draw(st.one_of(floats(0, 100), st.sampled_from([0.0, 50.0, 100.0])))
     spec["fcs_as"] = draw(st.sampled_from(["list", "ndarray", "tuple"]))
+    spec["az_as"] = draw(st.sampled_from(["list", "ndarray"]))
     return spec
 
 
@@ -278,21 +279,31 @@ def make_settings(hvsrpy, spec, fcs=None):
     fcs = spec["fcs"] if fcs is None else fcs
     as_ = spec.get("fcs_as", "ndarray")
     fcs_obj = np.array(fcs, dtype=float) if as_ == "ndarray" else (list(fcs) if as_ == "list" else tuple(fcs))
+    fft_n = spec.get("fft_n")
+    fft = None if fft_n is None else ({"n": None} if fft_n == "record-length" else {"n": int(fft_n)})
     common = dict(window_type_and_width=["tukey", spec["width"]],
                   smoothing=dict(operator=spec["op"], bandwidth=spec["bw"], center_frequencies_in_hz=fcs_obj),
-                  fft_settings=None if spec.get("fft_n") is None else {"n": int(spec["fft_n"])})
+                  fft_settings=fft)
     policy = spec.get("policy")
     method = spec["method"]
+    azs = spec.get("azimuths")
+    if azs is not None:
+        azs = np.array(azs, dtype=float) if spec.get("az_as") == "ndarray" else list(azs)
     if method == "azimuthal":
-        s = hvsrpy.HvsrAzimuthalProcessingSettings(azimuths_in_degrees=list(spec["azimuths"]), **common)
+        s = hvsrpy.HvsrAzimuthalProcessingSettings(azimuths_in_degrees=azs, **common)
     elif method == "diffuse_field":
         s = hvsrpy.HvsrDiffuseFieldProcessingSettings(**common)
     elif method == "psd":
-        s = hvsrpy.PsdProcessingSettings(**common)
+        if spec.get("psd_smoothing") is False:
+            common["smoothing"] = None
+            s = hvsrpy.PsdProcessingSettings(window_type_and_width=common["window_type_and_width"], fft_settings=fft)
+            s.smoothing = None
+        else:
+            s = hvsrpy.PsdProcessingSettings(**common)
     elif method == "single_azimuth":
         s = hvsrpy.HvsrTraditionalSingleAzimuthProcessingSettings(azimuth_in_degrees=spec["azimuth"], **common)
     elif method == "rotdpp":
-        s = hvsrpy.HvsrTraditionalRotDppProcessingSettings(azimuths_in_degrees=list(spec["azimuths"]),
+        s = hvsrpy.HvsrTraditionalRotDppProcessingSettings(azimuths_in_degrees=azs,
                                                            ppth_percentile_for_rotdpp_computation=spec["percentile"], **common)
     else:
         s = hvsrpy.HvsrTraditionalProcessingSettings(method_to_combine_horizontals=method, **common)
